@@ -29,6 +29,9 @@ def collect_hist(outs, first, last):
 def compare_trace(prop, trace, res_a, res_b, tally, stats):
     """Returns the list of mismatches of `prop`'s projection on one trace."""
     mism = []
+    if trace['case'].get('oracle_only'):
+        stats['skipped'] += len(trace['steps'])
+        return mism
     if trace['new_out'] != 'ok' or res_a['float'][0].get('out') != 'ok':
         if prop == 'C15':
             tally.discrete += 1
@@ -158,6 +161,9 @@ def run(prop, tier, seed, n_cases, corpus=(), exhaustive=False):
     n_corpus = len(cases)
     for _ in range(n_cases):
         cases.append(k3_gen.gen_case(rng))
+    if prop == 'C04':
+        for _ in range(max(40, n_cases // 50)):
+            cases.append(k3_gen.gen_unquoted_case(rng))
     n_exh = 0
     if exhaustive:
         ex = exhaustive_cases()
